@@ -108,7 +108,7 @@ let handle line =
   match split_on_string '|' line with
   | [head; body] ->
     (match List.filter (fun w -> w <> "") (String.split_on_char ' ' head) with
-     | ["EVAL"; labs; atoms] ->
+     | [("EVAL" | "ADMIT") as mode; labs; atoms] ->
        let labs = List.map label_of (String.split_on_char ',' labs) in
        cur_labs := labs;
        let atoms = List.map atom_of (String.split_on_char ',' atoms) in
@@ -117,7 +117,10 @@ let handle line =
            let (r, s) = if String.length s > 2 && s.[1] = ':' then (s.[0] = '1', String.sub s 2 (String.length s - 2)) else (false, s) in
            let (sx, _) = parse_sx (tokenize s) in
            { c_rec = r; c_exprs = [expr_of sx] }) conjs in
-       show (core_eval labs atoms (nat_of_int 40) cs)
+       let r = core_eval labs atoms (nat_of_int 40) cs in
+       if mode = "ADMIT" then
+         (if (not (core_err r)) && core_concrete r then "OK " else "NO ") ^ show r
+       else show r
      | _ -> "BADCASE")
   | _ -> "BADCASE"
 
